@@ -47,10 +47,13 @@ def frame_kinds(o: Outcome, spec: Dict[str, Any], cache: Dict[T.Term, Optional[s
 
 
 def run(prog: Program, rep: Report, tier: str) -> None:
+    from ..api_model import sign_summary_premise
+    sign_summary_premise(prog, rep)
     rep.rule("R3.1", "on every path the first frame is the login frame, it is written exactly once, and it precedes every command frame; every write is followed by a read before the next write", 12)
     rep.rule("R3.2", "session and timestamp of every command frame come from *this invocation's* login: session = bytes 8..12 of the reply read right after the login write, timestamp = the clock value sent in that login frame; the clock helper is not memoised", 14)
     rep.rule("R3.3", "no shared or lingering state: the only attribute stores of the API classes are the 7 instance attributes in __init__/connect/disconnect; no global/nonlocal, no cache decorator, no store on a module/class/other object, no mutated mutable default or module-level container in the api/tools modules", 10)
     rep.rule("R3.4", "login flavour: type-1 operations send the login-key frame, type-2 operations the device-id frame; _login selects the type-2 frame exactly for the DeviceType members with protocol_type == 2", 12 + 10)
+    rep.rule("R3.6", "each reply is consumed whole: every reader.read(n) on an operation's path asks for a constant n >= the longest reply of the protocol (spec/reply_layout.json whole_reply_read), so no bytes of one reply are left in the stream to be taken for the next operation's login reply (and its session id)", 12)
     rep.rule("R3.5", "frame sequence per operation is fixed: login.cmd for simple operations; login.(state.main)?.swing? with 2..4 frames for thermostat control; shorter sequences only on raising paths", 12)
     rep.assumptions += A.ASSUMPTIONS
     rep.trusted += [
@@ -59,6 +62,11 @@ def run(prog: Program, rep: Report, tier: str) -> None:
         "not decided: two coroutines sharing ONE instance; reply/request pairing inside the device",
     ]
     spec = load_spec()
+    import json as _json
+    import os as _os
+    from ..report import VERIF as _VERIF
+    with open(_os.path.join(_VERIF, "spec", "reply_layout.json")) as _fh:
+        min_read = int(_json.load(_fh)["whole_reply_read"]["min_bytes"])
     cache: Dict[T.Term, Optional[str]] = {}
     funcs: Set[str] = set()
     npaths = 0
@@ -72,6 +80,7 @@ def run(prog: Program, rep: Report, tier: str) -> None:
         bad32: List[str] = []
         bad34: List[str] = []
         bad35: List[str] = []
+        bad36: List[str] = []
         seqs: Dict[Tuple[str, Tuple[Optional[str], ...]], int] = {}
         for o in outs:
             if A.excluded_by_assumptions(o.state.pc):
@@ -100,6 +109,14 @@ def run(prog: Program, rep: Report, tier: str) -> None:
                     bad32.append(f"operation reads {e.target} at {e.where.split(' ')[0]}, an attribute no constructor/connect sets: state lingering from an earlier operation")
                 if e.kind in ("store", "storeitem") and (e.target.startswith("self.") or e.target == "self"):
                     bad32.append(f"operation stores {e.target} at {e.where.split(' ')[0]}: state kept on the instance across operations")
+            # R3.6
+            for e in A.reads(o):
+                n_ = e.args[0] if e.args else None
+                if n_ is None or not (T.is_c(n_) and isinstance(n_[1], int)):
+                    bad36.append(f"read at {e.where.split(' ')[0]} asks for {T.show(n_) if n_ else 'an unbounded/unknown number of'} bytes (not a constant)")
+                elif n_[1] < min_read:
+                    bad36.append(f"read at {e.where} asks for {n_[1]} bytes: a longer reply (login replies are 44 bytes, state replies ~107, a full schedule list {min_read}) leaves its tail in the stream, "
+                                 f"and the next operation parses its session id from those leftovers")
             # R3.4
             if kinds[0] != want_login:
                 bad34.append(f"login frame is {kinds[0]}, expected {want_login}")
@@ -143,7 +160,7 @@ def run(prog: Program, rep: Report, tier: str) -> None:
                 if op in SIMPLE_OPS and list(kinds) != allowed[: len(kinds)]:
                     bad35.append(f"raising path wrote {kinds}")
         for rid, bads, okmsg in (("R3.1", bad31, "login first, once, request/response alternate"), ("R3.2", bad32, "session/timestamp from this call's login"),
-                                 ("R3.4", bad34, f"login frame is {want_login}"), ("R3.5", bad35, "sequence as specified")):
+                                 ("R3.4", bad34, f"login frame is {want_login}"), ("R3.5", bad35, "sequence as specified"), ("R3.6", bad36, f"every read asks for >= {min_read} bytes")):
             if bads:
                 rep.bad(rid, op, where, f"{bads[0]} ({len(bads)} path(s))", key=f"{rid}|{op}")
             else:
